@@ -7,4 +7,5 @@ var Checks = map[string]func(*core.Env){
 	"C18": C18,
 	"C16": C16,
 	"C02": C02,
+	"C01": C01,
 }
